@@ -53,6 +53,12 @@ CHECKS["C08"] = dict(
    note="Trusted: modelNew/runProjCase in checks/c08.go. Two readings deliberately left open (row count of a zero-column frame; Drop of a non-existent column).",
    design="5/C08")
 
+CHECKS["C09"] = dict(
+   technique="explicit-state exploration of the reachable frame family (history DFS over the operation alphabet) with cross-observer and Equals oracles evaluated on every reached frame and every ordered pair",
+   text="Every non-error frame reachable within 3 steps of the 37-operation alphabet from 4 initial frames (so physical and logical row order differ arbitrarily): Len, names, types, view Len/Slice/ItemAt, ToCSV, ToJSON and String output are parsed and compared cell by cell with the typed views; Equals is compared with the statement's cell-wise equality (and for symmetry) on the New-rebuilt twin, four single-mutation twins and every ordered pair of frames within depth 1 (quick) / 2 (thorough); congruence (Equal twins yield Equal results) under every frame operation.",
+   note="Trusted: reference CSV parser, encoding/json token stream, fixed-width parse of String(). Views' ItemAt is the reference observation.",
+   design="5/C09")
+
 NOT_YET = {}
 BASELINE_CMD = "for m in $(cat /w/out/gomods.txt); do MF=$(cd /repo/$m && . /w/out/goenv.sh && gomodflag); (cd /repo/$m && go test $MF -json -vet=off -count=1 -timeout 25m ./...); done"
 
